@@ -1,5 +1,5 @@
 import Oracle.J
-import Eru.Wal.Spec
+import Eru.Wal.Interleave
 import Eru.TxnSpec
 import Eru.Rpc.Spec
 /- Oracles for group txw: C16 (WAL), C17 (Txn/PCR), C35 (auth), C36 (retry).  Each runs the Lean
@@ -225,7 +225,8 @@ def lookupNat (m : List (String × Nat)) (k : String) : Option Nat := (m.find? (
 
 def houtOf (s : String) : HOut :=
   match s with
-  | "handleErr" => .handleErr | "notNeeded" => .notNeeded | "checkErr" => .checkErr | "decodeErr" => .decodeErr | _ => .ok
+  | "handleErr" => .handleErr | "notNeeded" => .notNeeded | "checkErr" => .checkErr | "decodeErr" => .decodeErr
+  | "okDelErr" => .okDelErr | "notNeededDelErr" => .notNeededDelErr | _ => .ok
 
 def kindName : CallKind → String | .decode => "decode" | .check => "check" | .handle => "handle"
 
@@ -271,22 +272,55 @@ def checkDump (w : W) (dump : Json) : W :=
   let want := w.abs.pending.map fun e => [toString e.id, e.typ, e.item]
   if implEvents == want && implEvents.length == impl.length then w else w.flag "C16:removed-iff"
 
+def doCommitItem (w : W) (item : String) : W :=
+  let w := match lookupNat w.mid item with
+    | some n => { w with st := (step (.commit n) w.st).2 }
+    | none => w.fail "commit of unknown item"
+  match lookupNat w.iid item with
+  | some n => { w with abs := (absStep (.commit n) w.abs).2 }
+  | none => w
+
+/-- an action another goroutine performed between the scan and the handling of an event -/
+def applyFired (w : W) (f : Json) : W :=
+  match jstr (jget f "do") with
+  | "commit" => doCommitItem w (jstr (jget f "item"))
+  | "log" => doFinish (doBegin w (jstr (jget f "typ")) (jstr (jget f "item")) (some (jnat (jget f "id")))) (jstr (jget f "item"))
+  | _ => w.fail "unknown concurrent action"
+
+def obsCalls : Obs → List HCall
+  | .calls cs => cs
+  | _ => []
+
+/-- `Recover` through the interleaved model: scan (possibly failing after n entries), then per scanned
+event the concurrent actions the harness fired at that event, then one `handleNext` -/
 def doRecover (w : W) (o : Json) : W :=
   let outs := (jobjList (jget o "outs")).map fun (k, v) => (k, houtOf (jstr v))
   let out : Event → HOut := fun e => ((outs.find? (·.1 == e.item)).map (·.2)).getD .ok
-  let (ob, st') := step (.recover w.reg out) w.st
-  let mcalls := match ob with | .calls cs => cs | _ => []
-  let icalls := (jarr (jget (jget o "impl") "calls")).map jstrs
-  let w := { w with st := st', recovered := w.recovered + icalls.length }
+  let impl := jget o "impl"
+  let lim : Option Nat := if jhas o "scan_fail_after" then some (jnat (jget o "scan_fail_after")) else none
+  let fired := jarr (jget impl "fired")
+  let msc := (rstep (.scan lim) { st := w.st, scanned := [] }).2.scanned
+  -- with foreign entries in the bucket the abstract log is not judged: let it follow the model's scan
+  let asc := if w.injected then msc else (rabsStep (.scan lim) (w.abs, [])).2.2
+  let reg := w.reg
+  let rec go : List Event → List Event → W → List HCall → List HCall → W × List HCall × List HCall
+    | ev :: mr, aev :: ar, w, mc, ac =>
+      let w := fired.foldl (fun w f => if jstr (jget f "at") == ev.item then applyFired w f else w) w
+      let (om, sm) := rstep (.handleNext reg out) { st := w.st, scanned := [ev] }
+      let (oa, sa) := rabsStep (.handleNext reg out) (w.abs, [aev])
+      go mr ar { w with st := sm.st, abs := sa.1 } (mc ++ obsCalls om) (ac ++ obsCalls oa)
+    | [], [], w, mc, ac => (w, mc, ac)
+    | _, _, w, mc, ac => (w.fail "scanned lists of model and abstract log differ", mc, ac)
+  let pendAtScan := asc.map fun e => (e.typ, e.item)
+  let (w, mcalls, acalls) := go msc asc w [] []
+  let icalls := (jarr (jget impl "calls")).map jstrs
+  let w := { w with recovered := w.recovered + icalls.length }
   let w := if mcalls.map callTriple == icalls then w else w.fail "handler calls differ"
-  -- specification on the implementation's calls
-  let (oa, abs') := absStep (.recover w.reg out) w.abs
-  let want := match oa with | .calls cs => cs.map callTriple | _ => []
-  let w := { w with abs := abs' }
+  -- specification on the implementation's calls: the handler chains of the events stored at scan time
+  let want := acalls.map callTriple
   if w.injected || icalls == want then w else
   let decoded := icalls.filterMap fun c => match c with | ["decode", t, i] => some (t, i) | _ => none
-  let pend := w.abs.pending.map fun e => (e.typ, e.item)
-  if !decoded.all pend.contains then w.flag "C16:handler-called-for-non-pending-event"
+  if !decoded.all pendAtScan.contains then w.flag "C16:handler-called-for-non-pending-event"
   else if decoded.eraseDups.length != decoded.length then w.flag "C16:handler-called-twice"
   else if decoded != (want.filterMap fun c => match c with | ["decode", t, i] => some (t, i) | _ => none) then
     (if decoded.length == (want.filter (·.head? == some "decode")).length then w.flag "C16:not-in-logging-order" else w.flag "C16:pending-event-not-replayed")
@@ -330,12 +364,7 @@ def doOp (w : W) (o : Json) : W :=
   | "commit" =>
     if jstr (jget impl "err") == "no-closure" then w else
     let w := if jstr (jget impl "err") == "ok" then w else w.fail "commit failed"
-    let w := match lookupNat w.mid item with
-      | some n => { w with st := (step (.commit n) w.st).2 }
-      | none => w.fail "commit of unknown item"
-    match lookupNat w.iid item with
-    | some n => { w with abs := (absStep (.commit n) w.abs).2 }
-    | none => w
+    doCommitItem w item
   | "register" => if w.reg.contains typ then w else { w with reg := w.reg ++ [typ] }
   | "reopen" =>
     let w := { w with st := (step .reopen w.st).2, abs := (absStep .reopen w.abs).2, reg := jstrs (jget o "reg") }
@@ -343,6 +372,9 @@ def doOp (w : W) (o : Json) : W :=
     if jhas impl "dump" then checkDump w (jget impl "dump") else w
   | "recover" => doRecover w o
   | "dump" => if jhas impl "err" then w.fail "dump failed" else checkDump w (jget impl "dump")
+  | "failput" =>
+    -- the Put of an in-flight Log fails: the id is consumed, nothing is stored (the model keeps the logger in flight for ever)
+    if jstr (jget impl "err") == "aborted" then w else w.fail "failput: Log did not fail"
   | "inject" =>
     let v : Val := if jstr (jget o "val") == "event" then some (typ, item) else none
     { w with st := (step (.inject (jstr (jget o "key")).toList v) w.st).2, injected := true }
